@@ -146,7 +146,7 @@ def _examine(ctx, journal, verdicts, harness_args, cov):
                                        else "unchanged" if res == ev["box"] else "changed")] += 1
         if kind == "MISMATCH":
             tags = ["T_" + tn, "op_" + ev["op"], "model_mismatch"] + (["judge_fail"] if jfail else [])
-            cls = (site, tn, "MISMATCH")
+            cls = (site, tn, "MISMATCH", bool(jfail))      # a divergence that also loses points is reported as a class of its own
             reported[cls] += 1
             if reported[cls] <= 3:
                 what = ("CORRESPONDENCE-DIFF %s [%s]: the code-shaped model (lean/PPLV/WR/BoxTrans*.lean) does not compute what the "
